@@ -1,5 +1,6 @@
 import AutoVerif.Spec.C18
 import AutoVerif.Lemmas.C18
+import AutoVerif.Lemmas.C18Trace
 import AutoVerif.Gen.Consts
 /-
 C18 — Close stops everything a plugin started; a panicking flow is contained.
@@ -670,6 +671,101 @@ theorem spec_reports_v2_poll_panic_old (cs : Case) (t : Nat) (h : cs.panicSite =
   · simp [spec, panicObs]
   · have hcl : classify cs (panicObs cs t true 1) = .panicEscaped := by simp [classify, panicObs]
     unfold explain; rw [hcl]; rfl
+
+/-! ### exact trace validation (code built with the `verif` hooks of pkg/v3/service) -/
+
+/-- A log of hook events of one recoverer that the driver's `traceOk` accepts — with SOME admissible reordering of the
+    events and SOME filling-in of the wrapped service's unobservable steps — is a run of the model from the fresh
+    recoverer: the explanation replays to a state `t`, there is a schedule `ls` of `stepCore` leading from the initial
+    state to `t.c`, and the same holds for every prefix of the explanation.  Hence every all-schedules theorem of this
+    file applies to the recorded run; e.g. for the start-once kind the invariant `NB` holds at every hook point, so the
+    recorded Close can never be found waiting with nothing able to move (`close_never_blocks`).
+    What an accepted trace FIXES: the order and the outcome of every step of `recoverable.go` on its shared state —
+    each read of `running` and the value read, each write, each send on / receive from `stopped` with the message and
+    sent-vs-dropped, each goroutine start, the end of each cool-down, and whether `service.Start` returned nil / an
+    error / panicked and `service.Close` returned nil / an error — all consistent with one model path.
+    What it LEAVES OPEN: the wrapped service's internals (when exactly StartOnce / StopOnce / leaving the loop happened:
+    existentially quantified, constrained only by the model's service semantics), the moment serviceStart parks in its
+    select (inside the Go runtime), the overlap of two goroutines' steps between their hook calls (hence "some
+    reordering"), and everything outside recoverable.go (the services' own goroutines, tickers, the plugin's loops). -/
+theorem trace_sound {latched : Bool} {evs : Array Ev} {items : List Item} (h : traceOk latched evs items = true) :
+    ∃ t ls, replay evs { c := initOf latched } items = some t ∧ runC (initOf latched) ls = some t.c ∧
+      ∀ k, ∃ tk lk, replay evs { c := initOf latched } (items.take k) = some tk ∧ runC (initOf latched) lk = some tk.c ∧
+        (latched = false → NB tk.c ∧ (terminal tk.c = true → tk.c.cpc = .idle ∨ tk.c.cpc = .ret)) := by
+  unfold traceOk at h
+  simp only [Bool.and_eq_true] at h
+  cases hr : replay evs { c := initOf latched } items with
+  | none => simp [hr] at h
+  | some t =>
+    obtain ⟨ls, hls⟩ := replay_path items _ t hr
+    refine ⟨t, ls, rfl, hls, ?_⟩
+    intro k
+    obtain ⟨tk, htk⟩ := replay_take items _ t hr k
+    obtain ⟨lk, hlk⟩ := replay_path _ _ tk htk
+    refine ⟨tk, lk, htk, hlk, ?_⟩
+    intro hl
+    subst hl
+    have hnb : NB tk.c := nb_run lk init tk.c nb_init (by simpa [initOf] using hlk)
+    exact ⟨hnb, nb_terminal tk.c hnb⟩
+
+/-- `trace_sound` is not vacuous: the log of a recoverer that starts a ticker and is closed once start-up has quiesced —
+    the events in the order the hooks reported them on the real code, the service's hidden steps filled in — is
+    accepted; the same log with Close reporting `running = false` is not explained by that filling-in -/
+example :
+    let evs : Array Ev := #[⟨"start.idle", 0, 0, 0, 0⟩, ⟨"start.spawned", 0, 0, 1, 1⟩, ⟨"ss.stored", 0, 0, 2, 2⟩, ⟨"rs.enter", 1, 0, 3, 0⟩,
+      ⟨"close.running", 2, 0, 4, 0⟩, ⟨"rs.returned", 1, 0, 5, 4⟩, ⟨"rs.sent", 1, 0, 6, 6⟩, ⟨"ss.recv", 0, 0, 7, 3⟩, ⟨"close.svc", 2, 0, 8, 5⟩,
+      ⟨"close.sent", 2, 0, 9, 9⟩, ⟨"ss.recv", 0, 3, 10, 8⟩, ⟨"ss.cleared", 0, 0, 11, 11⟩]
+    let items : List Item := [.ev 0, .ev 1, .ev 2, .hid .sSel, .ev 3, .hid .gCall, .hid .gStarted, .ev 4, .hid .cSvcClose,
+      .hid .gStopSeen, .ev 5, .ev 6, .ev 7, .hid .cWaitDone, .ev 8, .ev 9, .ev 10, .ev 11]
+    traceOk false evs items = true ∧
+    traceOk false (evs.set! 4 ⟨"close.notrunning", 2, 0, 4, 0⟩) items = false := by
+  decide
+
+/-! ### the OCR2 `RecoverableService` (internal/util/recoverable.go): model, all-schedules theorem, trace soundness -/
+
+private def KV : List V2.VCore := V2.vexplore 5000 [V2.vinit] []
+private def PV (c : V2.VCore) : Bool :=
+  (!V2.vterminal c || !c.stopClosed || c.clean) && decide (c.gs ≤ 1) && (c.running || !decide (c.wpc = .absent) || decide (c.gs = 0))
+set_option maxRecDepth 100000 in
+private theorem KV_facts : (V2.vclosed KV && KV.contains V2.vinit && KV.all PV) = true := by decide +kernel
+
+/-- For EVERY schedule of the RecoverableService model — Start, any number of panics of the wrapped `Do` each followed by
+    the cool-down and a restart, Stop at any point (while `Do` runs, inside a cool-down, racing a restart), repeated
+    Start / Stop calls — every state reached satisfies: once Stop has taken effect and the service's own goroutines can
+    move no further, NOTHING is left (the watcher returned, no `run()` goroutine alive or blocked on `stopped`, flag
+    cleared); and there is never more than one `run()` goroutine. -/
+theorem v2_stop_leaves_nothing :
+    ∀ sched c, V2.vrun V2.vinit sched = some c →
+      (V2.vterminal c = true → c.stopClosed = true → c.clean = true) ∧ c.gs ≤ 1 := by
+  intro sched c hr
+  have hf := KV_facts
+  simp only [Bool.and_eq_true] at hf
+  have hin : c ∈ KV := V2.vclosed_sound hf.1.1 sched V2.vinit c (by simpa using hf.1.2) hr
+  have h := (List.all_eq_true.mp hf.2) c hin
+  simp only [PV, Bool.and_eq_true, Bool.or_eq_true, Bool.not_eq_true', decide_eq_true_eq] at h
+  refine ⟨?_, h.1.2⟩
+  intro ht hs
+  rcases h.1.1 with (h1 | h1) | h1
+  · simp [ht] at h1
+  · simp [hs] at h1
+  · exact h1
+
+example : (V2.vrun V2.vinit [.start, .gEnter, .wSel, .gPanic, .gSendStopped, .stop, .coolElapsed, .wRerun, .gEnter, .wStopSeen, .gReturnErr, .gSendErr]).map
+    (fun c => (V2.vterminal c, c.stopClosed, c.clean)) = some (true, true, true) := by decide
+
+/-- an accepted log of a RecoverableService's hook events (every step has a hook; the only hidden step is the watcher
+    parking) is a run of the model from the fresh service, prefix by prefix — so `v2_stop_leaves_nothing` applies to
+    the recorded run -/
+theorem trace_sound_v2 {evs : Array Ev} {items : List V2.VItem} (h : V2.vtraceOk evs items = true) :
+    ∃ t ls, V2.vreplay evs { c := V2.vinit } items = some t ∧ V2.vrun V2.vinit ls = some t.c ∧
+      (V2.vterminal t.c = true → t.c.stopClosed = true → t.c.clean = true) ∧ t.c.gs ≤ 1 := by
+  unfold V2.vtraceOk at h
+  simp only [Bool.and_eq_true] at h
+  cases hr : V2.vreplay evs { c := V2.vinit } items with
+  | none => simp [hr] at h
+  | some t =>
+    obtain ⟨ls, hls⟩ := V2.vreplay_path items _ t hr
+    exact ⟨t, ls, rfl, hls, v2_stop_leaves_nothing ls t.c hls⟩
 
 /-! ### tie theorems: the model's decisions ARE the decision expressions regenerated from the source (`Gen.Src`) -/
 
